@@ -79,9 +79,12 @@ pub fn ranges(a: &Args) -> Report {
         NaiveDate::from_ymd_opt(2024, 2, 25).unwrap(),
         NaiveDate::from_ymd_opt(1900, 2, 20).unwrap(),
         NaiveDate::from_ymd_opt(1600, 1, 1).unwrap(),
+        // the Gregorian switch inside the Julian-Day formula (1582-10-15) and the year 1 / year 0 boundary
+        NaiveDate::from_ymd_opt(1582, 10, 1).unwrap(),
+        NaiveDate::from_ymd_opt(0, 12, 20).unwrap(),
         anchor(&mut rng),
     ];
-    for s in starts.iter() {
+    for s in starts.iter().take(5) {
         let mut span = -3i64;
         while span <= max_span {
             let e = *s + Duration::days(span - 1);
